@@ -186,3 +186,14 @@ Proof.
   - rewrite simple_correct by assumption. split; [|tauto]. unfold simple_spec. apply simple_walk_NoDup. constructor.
   - apply nts_correct. assumption.
 Qed.
+
+Lemma key_correct : forall loc s ring h, strictly_sorted (map fst ring) = true ->
+  NoDup (driver_replicas_for_hash loc s ring h) /\
+  forall x, In x (driver_replicas_for_hash loc s ring h) <-> In x (natural_endpoints_for_hash loc (placement_of s) ring h).
+Proof.
+  intros loc s ring h Hs. unfold driver_replicas_for_hash, natural_endpoints_for_hash.
+  assert (E : murmur3_token h = normalize h).
+  { unfold murmur3_token, normalize. change MIN_LONG with Long_MIN_VALUE. change MAX_LONG with Long_MAX_VALUE.
+    destruct (h =? Long_MIN_VALUE); reflexivity. }
+  rewrite E. apply replicas_correct. assumption.
+Qed.
